@@ -2,6 +2,7 @@ import FatVerif.Proofs.FileSimFrame1
 import FatVerif.Proofs.FileSimFrame2
 import FatVerif.Proofs.FileSimFrame3
 import FatVerif.Proofs.FileSimFrame4
+import FatVerif.Proofs.FileSimCut
 /-!
 # C11 at byte level for the file operations; non-interference between files
 
@@ -202,20 +203,49 @@ theorem other_file_untouched_run : ∀ (ops : List HOp) (f g : FileH) (eg : DirE
       r3.size.trans hcore.size, r3.first.trans hcore.first, r3.offset.trans hcore.offset,
       r3.current.trans hcore.current⟩
 
-/-- **`durable_across_other_files_partial`.**  `g` is flushed; then any history of `read` / `seek` / `write` /
-    `truncate` / `read_exact` / `write_all` runs on ANOTHER represented file `f` (disjoint chain; `g`'s slot is not a position `f` may write — it lies
-    in the root-directory area or in a directory's cluster, not in the FAT, not in a cluster of `f`, not in a free
-    cluster).  Re-opening `g` from its slot on the resulting device and reading to the end returns exactly the content
-    `g` had when it was flushed.
+/-- flushing `g` does not disturb `f`: the common first step of the two durability statements below -/
+theorem flush_other_setup (f g : FileH) (eg : DirEntryEditor) (d : Dev) (hf : SimInv f d)
+    (hgs : SimInv g d) (heg : EntryRep d.fs d.img g eg)
+    (hap : ∀ c ∈ fileChain d.fs d.img f, c ∉ fileChain d.fs d.img g)
+    (hslot : ∀ q, eg.pos ≤ q → q < eg.pos + 32 → ¬ MayTouchData d.fs d.img f q) :
+    ∃ d1, run g.flush d = (.ok { g with entry := some { eg with dirty := false } }, d1) ∧
+      SimInv f d1 ∧ SimInv { g with entry := some { eg with dirty := false } } d1 ∧
+      EntryRep d1.fs d1.img { g with entry := some { eg with dirty := false } } { eg with dirty := false } ∧
+      CoreEq (absFile d1.fs d1.img { g with entry := some { eg with dirty := false } }) (absFile d.fs d.img g) ∧
+      (∀ c ∈ fileChain d1.fs d1.img f, c ∉ fileChain d1.fs d1.img { g with entry := some { eg with dirty := false } }) ∧
+      (∀ q, eg.pos ≤ q → q < eg.pos + 32 → ¬ MayTouchData d1.fs d1.img f q) := by
+  obtain ⟨d1, hr, hst, hfs, hout, _, _, _, hsim1, hent1, hcore1⟩ := flush_sim g eg d hgs heg
+  refine ⟨d1, hr, ?_, hsim1, hent1, hcore1, ?_, ?_⟩
+  all_goals
+    have hfat : FatAgree d.fs d.img d1.img := by
+      intro q h1 h2
+      exact hout q (by rcases heg.offFat with h | h <;> omega)
+    have hnotslot : ∀ c ∈ fileChain d.fs d.img f, ∀ j, j < d.fs.clusterSize →
+        d1.img.getByte (clusterOff d.fs c + j) = d.img.getByte (clusterOff d.fs c + j) := by
+      intro c hc j hj
+      apply hout
+      intro hin
+      exact hslot _ hin.1 hin.2 (Or.inr (Or.inl ⟨c, hc, Nat.le_add_right _ _, by omega⟩))
+    have htv1 : tabView d1.fs d1.img = tabView d.fs d.img := by rw [hfs]; exact tabView_congr hf.geo hfat
+    obtain ⟨hrepf1, hcoref, hchf⟩ := hf.rep.of_sem_agree (fs' := d1.fs) (img' := d1.img) hst.geom
+      (fun c _ => by rw [htv1]) hnotslot
+  · exact ⟨hsim1.nofault, hsim1.wf, hsim1.geo, hrepf1, hsim1.info⟩
+  · have hchg : fileChain d1.fs d1.img { g with entry := some { eg with dirty := false } } = fileChain d.fs d.img g :=
+      hcore1.chain
+    intro c hc; rw [hchf] at hc; rw [hchg]; exact hap c hc
+  · intro q h1 h2 hm
+    apply hslot q h1 h2
+    unfold MayTouchData FreeCluster at hm ⊢
+    rw [hchf, htv1, hfs] at hm
+    exact hm
 
-    PARTIAL: the cut point is an operation boundary of the later history (the device after any PREFIX of the history
-    is covered, since the statement holds for every `ops`).  A cut between two device writes INSIDE one operation of
-    `f` needs the individual write records of that operation; the forward simulation lemmas expose the image
-    difference of a whole call (`file_write_footprint`), not its records.  For FAT16/FAT32 that difference lies
-    outside `Footprint … g`, so `durable_after_flush` applies as soon as the records are known to lie where the
-    difference does; on FAT12 two neighbouring entries share a byte and the statement must be made on decoded entries
-    (as `other_file_untouched` does).  Also not covered: `flush` of `f` inside the later history (needs `EntryRep` of
-    `f` to be carried through `write`/`truncate`). -/
+/-- **`durable_across_other_files_partial`.**  `g` is flushed; then any history of `read` / `seek` / `write` /
+    `truncate` / `read_exact` / `write_all` runs on ANOTHER represented file `f` (disjoint chain; `g`'s slot is not a
+    position `f` may write).  Re-opening `g` from its slot on the resulting device and reading to the end returns exactly
+    the content `g` had when it was flushed.
+
+    PARTIAL: the cut point is an operation boundary of the later history.  `durable_across_other_files` below removes
+    the restriction: the cut may fall between any two device writes of the later history. -/
 theorem durable_across_other_files_partial (f g : FileH) (eg : DirEntryEditor) (d : Dev) (hf : SimInv f d)
     (hgs : SimInv g d) (heg : EntryRep d.fs d.img g eg)
     (hap : ∀ c ∈ fileChain d.fs d.img f, c ∉ fileChain d.fs d.img g)
@@ -225,32 +255,9 @@ theorem durable_across_other_files_partial (f g : FileH) (eg : DirEntryEditor) (
       ∃ g' d', run (readExact FileH.strm
           (reopen (runH ops f d1).2.2.fs (runH ops f d1).2.2.img eg.pos) (absFile d.fs d.img g).size)
           (runH ops f d1).2.2 = (.ok ((absFile d.fs d.img g).content, g'), d') := by
-  obtain ⟨d1, hr, hst, hfs, hout, _, _, _, hsim1, hent1, hcore1⟩ := flush_sim g eg d hgs heg
+  obtain ⟨d1, hr, hsimf1, hsim1, hent1, hcore1, hap1, hslot1⟩ := flush_other_setup f g eg d hf hgs heg hap hslot
   refine ⟨d1, hr, ?_⟩
-  generalize hg1 : ({ g with entry := some { eg with dirty := false } } : FileH) = g1 at hsim1 hent1 hcore1
-  -- `f` on the device after the flush of `g`
-  have hfat : FatAgree d.fs d.img d1.img := by
-    intro q h1 h2
-    exact hout q (by rcases heg.offFat with h | h <;> omega)
-  have hnotslot : ∀ c ∈ fileChain d.fs d.img f, ∀ j, j < d.fs.clusterSize →
-      d1.img.getByte (clusterOff d.fs c + j) = d.img.getByte (clusterOff d.fs c + j) := by
-    intro c hc j hj
-    apply hout
-    intro hin
-    exact hslot _ hin.1 hin.2 (Or.inr (Or.inl ⟨c, hc, Nat.le_add_right _ _, by omega⟩))
-  have htv1 : tabView d1.fs d1.img = tabView d.fs d.img := by rw [hfs]; exact tabView_congr hf.geo hfat
-  obtain ⟨hrepf1, hcoref, hchf⟩ := hf.rep.of_sem_agree (fs' := d1.fs) (img' := d1.img) hst.geom
-    (fun c _ => by rw [htv1]) hnotslot
-  have hsimf1 : SimInv f d1 := ⟨hsim1.nofault, hsim1.wf, hsim1.geo, hrepf1, hsim1.info⟩
-  have hchg : fileChain d1.fs d1.img g1 = fileChain d.fs d.img g := hcore1.chain
-  have hap1 : ∀ c ∈ fileChain d1.fs d1.img f, c ∉ fileChain d1.fs d1.img g1 := by
-    intro c hc; rw [hchf] at hc; rw [hchg]; exact hap c hc
-  have hslot1 : ∀ q, eg.pos ≤ q → q < eg.pos + 32 → ¬ MayTouchData d1.fs d1.img f q := by
-    intro q h1 h2 hm
-    apply hslot q h1 h2
-    unfold MayTouchData FreeCluster at hm ⊢
-    rw [hchf, htv1, hfs] at hm
-    exact hm
+  generalize hg1 : ({ g with entry := some { eg with dirty := false } } : FileH) = g1 at hsim1 hent1 hcore1 hap1
   obtain ⟨r1, r2, r3⟩ := other_file_untouched_run ops f g1 { eg with dirty := false } d1 hsimf1 hok hsim1.rep hent1
     hap1 hslot1
   obtain ⟨g', d', hrd⟩ := reopen_reads g1 { eg with dirty := false } (runH ops f d1).2.2 r1 r2 rfl
@@ -261,6 +268,85 @@ theorem durable_across_other_files_partial (f g : FileH) (eg : DirEntryEditor) (
   have hsize : (absFile (runH ops f d1).2.2.fs (runH ops f d1).2.2.img g1).size = (absFile d.fs d.img g).size :=
     r3.size.trans hcore1.size
   rw [hcont, hsize] at hrd
+  exact ⟨g', d', hrd⟩
+
+/-- the positions of classified records lie where the handle may write -/
+theorem classified_positions {fs : FsState} {img0 : Img} {f : FileH} :
+    ∀ (recs : List Rec) (img : Img), Classified fs (OwnOrFree fs img0 f) (OwnOrFree fs img0 f) img recs →
+      ∀ r ∈ recs, ∀ q, r.1 ≤ q → q < r.1 + r.2.length → MayTouchData fs img0 f q
+  | [], _, _, r, hr, _, _, _ => by cases hr
+  | r0 :: rs, img, hc, r, hr, q, h1, h2 => by
+    rcases List.mem_cons.mp hr with rfl | hr'
+    · rcases hc.1 with ⟨e1, e2⟩ | ⟨c, hcc, c2, ct, a1, a2⟩ | ⟨c, i, hcc, ct, hi, e1, e2, _⟩
+      · exact Or.inl (by omega)
+      · rcases hcc with hcc | hcc
+        · exact Or.inr (Or.inl ⟨c, hcc, by omega, by omega⟩)
+        · exact Or.inr (Or.inr (Or.inl ⟨c, hcc, by omega, by omega⟩))
+      · exact Or.inr (Or.inr (Or.inr ⟨c, hcc, i, hi, by omega, by omega⟩))
+    · exact classified_positions rs _ hc.2 r hr' q h1 h2
+
+/-- **`file_write_records_in_footprint`** (record-level `file_write_footprint`).  One operation `read` / `seek` / `write`
+    / `truncate` / `read_exact` / `write_all` on a represented handle appends the device write records `recs` (in this
+    order) to the log; the image afterwards is the image before with them applied; each record is the status byte, a
+    piece of ONE cluster of the handle's chain or of a cluster that was free, or the complete window of the FAT entry of
+    such a cluster in one FAT copy written as a read-modify-write that keeps the decoded value of every other entry
+    (`Classified`); in particular every position of every record is one the handle may write (`MayTouchData`).
+    (`flush` / drop: `flush_sim` / `drop_sim` give the records — the pieces of the 32-byte slot.) -/
+theorem file_write_records_in_footprint (op : HOp) (f : FileH) (d : Dev) (h : SimInv f d) (hok : op.BytesOk) :
+    ∃ recs : List Rec, (execH op f d).2.2.log = recItems recs ++ d.log ∧
+      (execH op f d).2.2.img = applyRecs d.img recs ∧
+      Classified d.fs (OwnOrFree d.fs d.img f) (OwnOrFree d.fs d.img f) d.img recs ∧
+      ∀ r ∈ recs, ∀ q, r.1 ≤ q → q < r.1 + r.2.length → MayTouchData d.fs d.img f q := by
+  obtain ⟨recs, hl, hi, hc⟩ := (execH_summary op f d h hok).trace
+  exact ⟨recs, hl, hi, hc, classified_positions recs d.img hc⟩
+
+/-- **`durable_across_other_files`.**  `g` is flushed; then any history of `read` / `seek` / `write` / `truncate` /
+    `read_exact` / `write_all` runs on ANOTHER represented file `f` (disjoint chain; `g`'s slot is not a position `f` may
+    write).  Let `recs` be ALL device write records of that history, in order (the log grew by exactly these; the final
+    image is the flushed image with them applied).  For EVERY cut point `k` — also between two device writes of one
+    call, e.g. between the two FAT copies of one entry update, or between the allocation and the data write — and every
+    fault-free device `dk` holding the flushed image with the surviving prefix `recs.take k` applied: re-opening `g` from
+    its slot on `dk` and reading to the end returns exactly the content `g` had when it was flushed.
+    Records are atomic (the granularity of the device log).  All three FAT types: on FAT12 the record that updates an
+    entry of `f` next to an entry of `g` rewrites the shared byte with `g`'s nibble unchanged (read-modify-write), which
+    is what `Classified` records and `Keeps` uses. -/
+theorem durable_across_other_files (f g : FileH) (eg : DirEntryEditor) (d : Dev) (hf : SimInv f d)
+    (hgs : SimInv g d) (heg : EntryRep d.fs d.img g eg)
+    (hap : ∀ c ∈ fileChain d.fs d.img f, c ∉ fileChain d.fs d.img g)
+    (hslot : ∀ q, eg.pos ≤ q → q < eg.pos + 32 → ¬ MayTouchData d.fs d.img f q)
+    (ops : List HOp) (hok : BytesOk ops) :
+    ∃ d1, run g.flush d = (.ok { g with entry := some { eg with dirty := false } }, d1) ∧
+      ∃ recs : List Rec, (runH ops f d1).2.2.log = recItems recs ++ d1.log ∧
+        (runH ops f d1).2.2.img = applyRecs d1.img recs ∧
+        ∀ (k : Nat) (dk : Dev), dk.img = applyRecs d1.img (recs.take k) → dk.fs = d1.fs → dk.failAt = none →
+          ∃ g' d', run (readExact FileH.strm (reopen dk.fs dk.img eg.pos) (absFile d.fs d.img g).size) dk =
+            (.ok ((absFile d.fs d.img g).content, g'), d') := by
+  obtain ⟨d1, hr, hsimf1, hsim1, hent1, hcore1, hap1, hslot1⟩ := flush_other_setup f g eg d hf hgs heg hap hslot
+  refine ⟨d1, hr, ?_⟩
+  generalize hg1 : ({ g with entry := some { eg with dirty := false } } : FileH) = g1 at hsim1 hent1 hcore1 hap1
+  obtain ⟨recs, hl, hi, hc⟩ := (runH_summary ops f d1 hsimf1 hok).trace
+  refine ⟨recs, hl, hi, fun k dk himg hfsk hfak => ?_⟩
+  have hkeeps := classified_keeps (fs := d1.fs) (pos := eg.pos) (L := fileChain d1.fs d1.img g1)
+    (fun c hc => by
+      obtain ⟨a, b⟩ := hsim1.rep.inTab c hc
+      have hlive : tabView d1.fs d1.img c ≠ .free := hsim1.rep.inv.live c hc
+      refine ⟨a, b, ?_, ?_⟩ <;>
+      · rintro (h | ⟨_, _, h⟩)
+        · exact hap1 c h hc
+        · exact hlive h)
+    (fun q h1 h2 => by
+      have hn := hslot1 q h1 h2
+      refine ⟨fun e => hn (Or.inl e), fun c hcD c2 ct hin => ?_, fun c hcE hfe => hn (Or.inr (Or.inr (Or.inr ⟨c, hcE, hfe⟩)))⟩
+      rcases hcD with hcD | hcD
+      · exact hn (Or.inr (Or.inl ⟨c, hcD, hin⟩))
+      · exact hn (Or.inr (Or.inr (Or.inl ⟨c, hcD, hin⟩))))
+    recs d1.img hsim1.geo hsim1.wf hc k
+  rw [← himg] at hkeeps
+  obtain ⟨g', d', hrd⟩ := reopen_reads_keeps hsim1.geo hsim1.rep hent1 rfl dk hkeeps hfsk hfak
+  have habs0 := hcore1.abs_eq hgs.rep.inv.cs_pos hgs.rep.inv.cover
+  have hcont : (absFile d1.fs d1.img g1).content = (absFile d.fs d.img g).content :=
+    congrArg Cursor.ByteFile.content habs0
+  rw [hcont, hcore1.size] at hrd
   exact ⟨g', d', hrd⟩
 
 end FatVerif.FileSim
@@ -531,5 +617,41 @@ theorem untouched17 :
     (fun bs e => by rcases e with e | e <;> cases e; decide) repG17 entryRepG pair17.apart
     (rootSlot_not_mayTouchData (fs := fs17) (img := img17) geo17 repF17 (by decide) (by decide))).2.2.1
 
-end FatVerif.FileSim.Ex11
+/-- `durable_across_other_files` applied: flush the second file; then the first one grows by a cluster; the cut may
+    fall between any two of the device writes of that history -/
+theorem durableFull17 :
+    ∃ d1, run fileG.flush dev17 = (.ok { fileG with entry := some ⟨entryG, 1568, false⟩ }, d1) ∧
+      ∃ recs : List Rec, (runH ops14 file14 d1).2.2.log = recItems recs ++ d1.log ∧
+        (runH ops14 file14 d1).2.2.img = applyRecs d1.img recs ∧
+        ∀ (k : Nat) (dk : Dev), dk.img = applyRecs d1.img (recs.take k) → dk.fs = d1.fs → dk.failAt = none →
+          ∃ g' d', run (readExact FileH.strm (reopen dk.fs dk.img 1568) (absFile fs17 img17 fileG).size) dk =
+            (.ok ((absFile fs17 img17 fileG).content, g'), d') :=
+  durable_across_other_files file14 fileG ⟨entryG, 1568, true⟩ dev17 pair17.left pair17.right entryRepG
+    pair17.apart
+    (rootSlot_not_mayTouchData (fs := fs17) (img := img17) geo17 repF17 (by decide) (by decide))
+    ops14 ⟨by decide, by decide, trivial⟩
 
+/-- the device after the flush of the second file -/
+def dG1 : Dev := (run fileG.flush dev17).2
+
+/-- the seven write records of the history `ops14` on the first file: status byte; 4 data bytes up to the cluster
+    boundary; the end-of-chain mark of the new cluster 2 in both FAT copies; the link `5 → 2` in both FAT copies; the
+    remaining 2 data bytes in cluster 2 -/
+def recsF : List Rec :=
+  [(37, [1]), (4092, [1, 2, 3, 4]), (516, [255, 255]), (1028, [255, 255]), (522, [2, 0]), (1034, [2, 0]),
+   (2048, [5, 6])]
+
+set_option maxRecDepth 100000 in
+theorem log17 : (runH ops14 file14 dG1).2.2.log = recItems recsF ++ dG1.log := by decide +kernel
+
+/-- power cut after the third record: cluster 2 is marked in the first FAT copy only, not yet linked -/
+def dCutF : Dev := { dG1 with img := applyRecs dG1.img (recsF.take 3) }
+
+set_option maxRecDepth 100000 in
+/-- … and the second file reads back as flushed -/
+theorem cutF17 :
+    ((run (readExact FileH.strm (reopen dCutF.fs dCutF.img 1568) 100) dCutF).1.toOption.map
+      fun r => (r.1.length, r.1.take 4)) = some (100, [41, 42, 43, 0]) := by
+  decide +kernel
+
+end FatVerif.FileSim.Ex11
